@@ -610,6 +610,11 @@ def check_scenes(res, tier, r):
             data = gen_data(r, data)
             want = scene_expected(pieces, data)
             out = render_scene(t, data)
+            if isinstance(out, bytes):
+                # a rendering that consists of ONE piece returns that piece as it is (C19: only a rendering of more than
+                # one piece is text): an inserted bytes value next to nothing but empty pieces comes back as bytes
+                res.count('scene_single_bytes_piece')
+                out = out.decode('ascii', 'replace')
             res.evaluations += 1
             res.count('scene_renders')
             if data['t']['t'] == 'tainted' or data['t2']['t'] == 'tainted' or data['x']['t'] == 'tainted':
